@@ -36,20 +36,23 @@ UNIT = Unit(
                       && final(self).tips == old(self).tips && final(self).dosc_speed == old(self).dosc_speed
                       && final(self).pools == old(self).pools && final(self).stakes == old(self).stakes""", "C17")]),
         Fn(S, "collect_proposer_action_fee", impl="UnsealedState", home="C05", implicit_props=("C09", "C05"),
-           requires=[C("wf", "old(self).coins.wf() && (spec_tip906(*old(self)) ==> counts_ok(old(self).coins@))"),
+           requires=[C("wf", "old(self).coins.wf() && (spec_tip906(*old(self)) ==> counts_ok(old(self).coins@)) && origin_ok(old(self).coins@.coins) && reward_fresh(*old(self))"),
                      C("fits", "(old(self).fee_pool.0 >> 16) + old(self).tips.0 <= u128::MAX", note="C09 envelope: fee pool + tips fit in u128")],
-           ensures=[C("reward", """exists|d: CoinDataHeight| is_reward_cdh(*old(self), action, d)
+           ensures=[C("inv", "(spec_tip906(*old(self)) ==> counts_ok(final(self).coins@)) && origin_ok(final(self).coins@.coins) && (!spec_tip906(*old(self)) ==> final(self).coins@.counts == old(self).coins@.counts)", "C20"),
+                    C("reward", """exists|d: CoinDataHeight| is_reward_cdh(*old(self), action, d)
                         && #[trigger] view_insert(old(self).coins@, spec_proposer_reward(old(self).height), d, spec_tip906(*old(self))) == final(self).coins@""", "C05", "C01", "C06"),
                     C("pool", "final(self).fee_pool.0 == old(self).fee_pool.0 - (old(self).fee_pool.0 >> 16) && final(self).tips.0 == 0", "C05", "C01", "C06", "C08"),
                     C("frame", """final(self).network == old(self).network && final(self).height == old(self).height && final(self).history == old(self).history
                         && final(self).transactions == old(self).transactions && final(self).fee_multiplier == old(self).fee_multiplier
                         && final(self).dosc_speed == old(self).dosc_speed && final(self).pools == old(self).pools && final(self).stakes == old(self).stakes""", "C05", "C17"),
                     C("wf", "final(self).coins.wf()", "C20")],
-           injects=[Inject("entry", "proof { let x = self.fee_pool.0; assert((x >> 16) <= x) by (bit_vector); }")]),
+           injects=[Inject("entry", "proof { let x = self.fee_pool.0; assert((x >> 16) <= x) by (bit_vector); }"),
+                    Inject("end", "proof { let d = self.coins@.coins[spec_proposer_reward(old(self).height)]; lemma_origin_reward(old(self).coins@.coins, old(self).height, d); assert(self.coins@.coins =~= old(self).coins@.coins.insert(spec_proposer_reward(old(self).height), d)); }")]),
         Fn(S, "apply_proposer_action", impl="UnsealedState", home="C05", implicit_props=("C09", "C05", "C17"),
-           requires=[C("wf", "old(self).coins.wf() && (spec_tip906(*old(self)) ==> counts_ok(old(self).coins@))"),
+           requires=[C("wf", "old(self).coins.wf() && (spec_tip906(*old(self)) ==> counts_ok(old(self).coins@)) && origin_ok(old(self).coins@.coins) && reward_fresh(*old(self))"),
                      C("fits", "(old(self).fee_pool.0 >> 16) + old(self).tips.0 <= u128::MAX")],
-           ensures=[C("applied", "proposer_applied(*old(self), action, after_tip_901, *final(self))", "C05", "C17", "C01", "C06", "C08"),
+           ensures=[C("inv", "(spec_tip906(*old(self)) ==> counts_ok(final(self).coins@)) && origin_ok(final(self).coins@.coins) && (!spec_tip906(*old(self)) ==> final(self).coins@.counts == old(self).coins@.counts)", "C20"),
+                    C("applied", "proposer_applied(*old(self), action, after_tip_901, *final(self))", "C05", "C17", "C01", "C06", "C08"),
                     C("wf", "final(self).coins.wf()", "C20")]),
         Raw("pub mod melmint { pub use super::*; }"),
         Fn("src/state/melmint.rs", "preseal_melmint", mode="assume", **mm_preseal()),
@@ -59,7 +62,10 @@ UNIT = Unit(
         Fn(SM, "val_iter", impl="SmtMapping", mode="assume", wrap=SMT_WRAP, sig_subst=[("impl Iterator<Item = V> + '_", "Vec<V>")], **smt_val_iter()),
         Fn(S, "seal", impl="UnsealedState", home="C06", implicit_props=("C09", "C06", "C16"), rewrites=[("MUTSELF",)], **st_seal_full(),
            injects=[Inject(("after", "this = crate::melmint::preseal_melmint(this);"), "proof { lemma_two_pools(this); }"),
-                    Inject(("before", "if let Some(action) = action"), "proof { let x = this.fee_pool.0; assert((x >> 16) <= 0x1_0000_0000_0000_0000_0000_0000_0000u128) by (bit_vector); }")]),
+                    Inject(("before", "if let Some(action) = action"), """proof { let x = this.fee_pool.0; assert((x >> 16) <= 0x1_0000_0000_0000_0000_0000_0000_0000u128) by (bit_vector);
+                        broadcast use axiom_reward_not_output; let rid = spec_proposer_reward(this.height);
+                        assert(!tx_id(rid)) by { if tx_id(rid) { let tx = choose|tx: Transaction| rid.txhash == #[trigger] spec_txhash(tx); assert(spec_reward_hash(this.height) != spec_txhash(tx).0); } }
+                        assert(ids_new(self.coins@.coins, this.coins@.coins)); assert(reward_fresh(this)); assert(state_inv(this) && pools_ok(this.pools@) && builtins_live(this)); }""")]),
         Fn(S, "header", impl="SealedState", home="C07", implicit_props=("C09", "C07"), **st_header_full(),
            closures=[Closure(0, "height: u64", "(r: HashVal)", requires=[C("has", "inner.history@.contains_key(BlockHeight(height))")],
                              ensures=[C("prev", "r == spec_header_hash(inner.history@[BlockHeight(height)])", "C07")])]),
@@ -91,15 +97,20 @@ UNIT = Unit(
            requires=[C("pre", "chain_ok(self.0) && state_inv(self.0) && spec_builtin_pools(self.0) && pools_ok(self.0.pools@) && builtins_if_present(self.0) && self.0.height.0 < u64::MAX && (!spec_tip906(self.0) ==> self.0.coins.only_coins())"),
                      C("env", "forall|n: UnsealedState<C>, txx: Seq<Transaction>| next_rel(self.0, n) && txx.to_set() == block.transactions@ ==> #[trigger] batch_env(n, txx)",
                        note="C09 envelope: the arithmetic envelopes of batch application hold for the block's transactions"),
-                     C("env2", "forall|n: UnsealedState<C>, txx: Seq<Transaction>, mid: UnsealedState<C>| next_rel(self.0, n) && txx.to_set() == block.transactions@ && #[trigger] batch_result(n, txx, mid) ==> seal_env(mid) && (spec_tip(mid.network, mid.height, 950000) ==> tip909_env(spec_preseal(mid)))",
+                     C("env2", "forall|n: UnsealedState<C>, txx: Seq<Transaction>, mid: UnsealedState<C>| next_rel(self.0, n) && txx.to_set() == block.transactions@ && #[trigger] batch_result(n, txx, mid) ==> seal_env(mid) && reward_fresh(mid) && (spec_tip(mid.network, mid.height, 950000) ==> tip909_env(spec_preseal(mid)))",
                        note="C09 envelope: the arithmetic envelopes of the settlement phases of sealing hold for the block's transactions")],
            ensures=[C("accepted", "res is Ok ==> spec_header(res->Ok_0.0) == block.header && res->Ok_0.1 == block.proposer_action && block_applied(self.0, *block, res->Ok_0.0)", "C06", "C03"),
+                    C("inv_next", "res is Ok ==> chain_ok(res->Ok_0.0) && state_inv(res->Ok_0.0) && spec_builtin_pools(res->Ok_0.0) && pools_ok(res->Ok_0.0.pools@) && builtins_live(res->Ok_0.0) && (spec_tip(res->Ok_0.0.network, res->Ok_0.0.height, 180000) ==> builtins_if_present(res->Ok_0.0))", "C16", "C20", "C07",
+                      note="the state invariants that apply_block requires of the current sealed state hold again of the state it returns: with GenesisConfig::realize + seal as the base case they hold along every chain of accepted blocks (modulo the assumed envelopes / freshness preconditions; before TIP-902 an ordinary ERG/SYM pool may be emptied, so `builtins_if_present` is inductive only from TIP-902 on)"),
                     C("wrong_header", "res is Err && res->Err_0 is WrongHeader ==> exists|r: UnsealedState<C>| #[trigger] block_applied(self.0, *block, r) && spec_header(r) != block.header", "C06")],
            rewrites=[("R3", 0), ("ANF", "collect", 0, 3, {1: "proof { assert(__c1@ =~= derefseq(__c0@)); assert(__c1@.no_duplicates() && __c1@.to_set() == block.transactions@); }"})],
            injects=[Inject(("after_let", "transactions"), "proof { assert(transactions@.no_duplicates() && transactions@.to_set() == block.transactions@); }"),
                     Inject(("after_let", "basis", 0), "let ghost n0 = basis; proof { lemma_two_pools_min(basis); }"),
                     Inject(("after", "basis.apply_tx_batch(&transactions)?;"), "let ghost mid0 = basis; proof { lemma_two_pools_min(basis); }"),
-                    Inject(("after_let", "basis", 1), "proof { lemma_two_pools(basis.0); assert(batch_result(n0, transactions@, mid0)); assert(block_applied(self.0, *block, basis.0)); }")]),
+                    Inject(("after_let", "basis", 1), """proof { lemma_two_pools(basis.0); assert(batch_result(n0, transactions@, mid0)); assert(block_applied(self.0, *block, basis.0));
+                        assert(chain_ok(n0)); assert(mid0.history == n0.history && mid0.height == n0.height && mid0.network == n0.network); assert(chain_ok(mid0));
+                        assert(basis.0.history == mid0.history && basis.0.height == mid0.height && basis.0.network == mid0.network); assert(chain_ok(basis.0));
+                        assert(state_inv(basis.0) && pools_ok(basis.0.pools@) && builtins_live(basis.0)); }""")]),
         Fn(C_, "new", impl="CoinMapping", mode="assume", **cm_new_abs()),
         Fn(SM, "new", impl="SmtMapping", mode="assume", wrap=SMT_WRAP, **smt_new()),
         Fn(S, "from_block", impl="SealedState", home="C08", implicit_props=("C09", "C08"),
